@@ -1,5 +1,6 @@
 (* C17, case assembly with object identity (Model_C17 section 7): proofs.
-   Added after seed C17_c_explicit_container_shared_between_cases. *)
+   Added after seed C17_c_explicit_container_shared_between_cases; the serializer
+   half follows fix cedd1977 (only the explicit keys are serialized, into a new dict). *)
 From Coq Require Import List NArith ZArith Bool PeanoNat Lia.
 From Verif Require Import Common.Str Common.Json C17.Model_C17 C17.Proofs_C17.
 Import ListNotations.
@@ -55,229 +56,6 @@ Proof.
     + rewrite <- app_assoc. f_equal. unfold fresh_refs. cbn [map length seq List.combine app fst].
       rewrite (app_assoc h0 ext). rewrite length_snoc. reflexivity.
 Qed.
-
-Lemma ser_phase ser (D : str * nat -> dict) : forall rc base,
-  fold_left (ser_step ser) (fresh_refs (length base) rc) (base ++ map D rc) =
-  base ++ map (fun ca => ser (fst ca) (D ca)) rc.
-Proof.
-  induction rc as [|[c a] rc IH]; intros base; [reflexivity|].
-  unfold fresh_refs. cbn [map length seq List.combine fold_left fst].
-  unfold ser_step at 2. cbn [fst snd].
-  rewrite hget_middle, hset_middle.
-  change (base ++ ser c (D (c, a)) :: map D rc) with (base ++ [ser c (D (c, a))] ++ map D rc).
-  rewrite app_assoc.
-  specialize (IH (base ++ [ser c (D (c, a))])). rewrite length_snoc in IH.
-  unfold fresh_refs in IH. rewrite IH. rewrite <- app_assoc. reflexivity.
-Qed.
-
-Lemma build_case_spec draw ser h0 idx rc ext :
-  forallb (fun ca => Nat.ltb (snd ca) (length h0)) rc = true ->
-  forallb (fun ca => is_some (draw idx (fst ca) (hget h0 (snd ca)))) rc = true ->
-  build_case CopyWhenDrawn draw ser idx (h0 ++ ext) rc =
-  ((h0 ++ ext) ++ map (fun ca => ser (fst ca) (mval draw h0 idx ca)) rc,
-   fresh_refs (length (h0 ++ ext)) rc).
-Proof.
-  intros Hwf Hdr. pose proof (gen_phase draw h0 idx rc ext [] Hwf Hdr) as G.
-  unfold build_case. cbv zeta. unfold case_refs, heap, rcombo, dict in *.
-  rewrite G. cbn [fst snd app]. rewrite ser_phase. reflexivity.
-Qed.
-
-(* ------------------------------------------------------------------ *)
-(* the whole sequence of cases                                         *)
-(* ------------------------------------------------------------------ *)
-Fixpoint blocks (draw : draw_fn) (ser : ser_fn) (h0 : heap) (idx : nat) (rcs : list rcombo) : heap :=
-  match rcs with
-  | [] => []
-  | rc :: r => map (fun ca => ser (fst ca) (mval draw h0 idx ca)) rc ++ blocks draw ser h0 (S idx) r
-  end.
-Fixpoint addrs (n : nat) (rcs : list rcombo) : list case_refs :=
-  match rcs with
-  | [] => []
-  | rc :: r => fresh_refs n rc :: addrs (n + length rc) r
-  end.
-
-Lemma assemble_spec draw ser h0 : forall rcs idx ext,
-  wf_refs h0 rcs = true -> all_drawn draw h0 idx rcs = true ->
-  assemble_from CopyWhenDrawn draw ser idx (h0 ++ ext) rcs =
-  ((h0 ++ ext) ++ blocks draw ser h0 idx rcs, addrs (length (h0 ++ ext)) rcs).
-Proof.
-  induction rcs as [|rc rcs IH]; intros idx ext Hwf Hdr.
-  - cbn. rewrite app_nil_r. reflexivity.
-  - cbn [wf_refs forallb] in Hwf. apply andb_true_iff in Hwf. destruct Hwf as [Hw1 Hwf].
-    cbn [all_drawn] in Hdr. apply andb_true_iff in Hdr. destruct Hdr as [Hd1 Hdr].
-    cbn [assemble_from]. rewrite (build_case_spec draw ser h0 idx rc ext Hw1 Hd1). cbn [fst snd].
-    rewrite <- app_assoc.
-    rewrite (IH (S idx) (ext ++ map (fun ca => ser (fst ca) (mval draw h0 idx ca)) rc) Hwf Hdr).
-    cbn [fst snd blocks addrs]. f_equal.
-    + rewrite <- !app_assoc. reflexivity.
-    + f_equal. rewrite !app_length, map_length. rewrite Nat.add_assoc. reflexivity.
-Qed.
-
-Lemma wire_block (F : str * nat -> dict) : forall rc pre post,
-  wire (pre ++ map F rc ++ post) (fresh_refs (length pre) rc) =
-  map (fun ca => (fst ca, Some (F ca))) rc.
-Proof.
-  induction rc as [|[c a] rc IH]; intros pre post; [reflexivity|].
-  unfold fresh_refs. cbn [map length seq List.combine fst app]. unfold wire. cbn [map fst snd].
-  rewrite hget_middle. f_equal.
-  specialize (IH (pre ++ [F (c, a)]) post). rewrite length_snoc in IH.
-  rewrite <- app_assoc in IH. cbn [app] in IH. exact IH.
-Qed.
-
-Lemma wires_blocks draw ser h0 : forall rcs idx P Q,
-  map (wire (P ++ blocks draw ser h0 idx rcs ++ Q)) (addrs (length P) rcs) =
-  values_from draw ser h0 idx rcs.
-Proof.
-  induction rcs as [|rc rcs IH]; intros idx P Q; [reflexivity|].
-  cbn [blocks addrs map values_from]. f_equal.
-  - rewrite <- app_assoc. rewrite wire_block. reflexivity.
-  - specialize (IH (S idx) (P ++ map (fun ca => ser (fst ca) (mval draw h0 idx ca)) rc) Q).
-    rewrite app_length, map_length in IH. rewrite <- !app_assoc in IH. rewrite <- app_assoc. exact IH.
-Qed.
-
-Lemma flat_fresh n rc :
-  flat_map (fun co : str * option nat => match snd co with Some a => [a] | None => [] end) (fresh_refs n rc)
-  = seq n (length rc).
-Proof.
-  unfold fresh_refs. revert n. induction rc as [|ca rc IH]; intros n; [reflexivity|].
-  cbn [map length seq List.combine flat_map snd app]. f_equal. apply IH.
-Qed.
-
-Lemma case_addrs_addrs : forall rcs n, case_addrs (addrs n rcs) = seq n (length (concat rcs)).
-Proof.
-  induction rcs as [|rc rcs IH]; intros n; [reflexivity|].
-  unfold case_addrs in *. cbn [addrs flat_map concat]. rewrite flat_fresh, IH.
-  rewrite app_length, seq_app. reflexivity.
-Qed.
-
-(* The stateful assembly (heap, in-place serialization, one case after the
-   other) equals the pure per-case value; the source objects keep their
-   contents; the containers of the cases are new, pairwise distinct objects. *)
-Lemma cases_independent draw ser h0 rcs :
-  wf_refs h0 rcs = true -> all_drawn draw h0 0 rcs = true ->
-  wires CopyWhenDrawn draw ser h0 rcs = values_from draw ser h0 0 rcs /\
-  firstn (length h0) (fst (assemble CopyWhenDrawn draw ser h0 rcs)) = h0 /\
-  NoDup (case_addrs (snd (assemble CopyWhenDrawn draw ser h0 rcs))) /\
-  (forall a, In a (case_addrs (snd (assemble CopyWhenDrawn draw ser h0 rcs))) -> length h0 <= a).
-Proof.
-  intros Hwf Hdr. unfold wires, assemble.
-  pose proof (assemble_spec draw ser h0 rcs 0 [] Hwf Hdr) as E. rewrite app_nil_r in E. rewrite E.
-  cbn [fst snd]. repeat split.
-  - pose proof (wires_blocks draw ser h0 rcs 0 h0 []) as W. rewrite app_nil_r in W. exact W.
-  - rewrite firstn_app, Nat.sub_diag, firstn_all. cbn [firstn]. apply app_nil_r.
-  - rewrite case_addrs_addrs. apply seq_NoDup.
-  - intros a Ha. rewrite case_addrs_addrs in Ha. apply in_seq in Ha. lia.
-Qed.
-
-(* ------------------------------------------------------------------ *)
-(* nothing to fill in: every example is serialized exactly once        *)
-(* ------------------------------------------------------------------ *)
-Lemma nothing_to_fill_all_drawn draw h0 : forall rcs idx,
-  nothing_to_fill draw h0 idx rcs = true -> all_drawn draw h0 idx rcs = true.
-Proof.
-  induction rcs as [|rc rcs IH]; intros idx H; [reflexivity|].
-  cbn [nothing_to_fill all_drawn] in *. apply andb_true_iff in H. destruct H as [H1 H2].
-  apply andb_true_iff. split; [|apply IH; exact H2].
-  rewrite forallb_forall in *. intros ca Hin. specialize (H1 ca Hin).
-  apply andb_true_iff in H1. destruct H1 as [_ H1].
-  destruct (draw idx (fst ca) (hget h0 (snd ca))) as [[|]|]; [reflexivity | discriminate | discriminate].
-Qed.
-
-Lemma values_nothing_to_fill draw ser h0 : forall rcs idx,
-  nothing_to_fill draw h0 idx rcs = true ->
-  values_from draw ser h0 idx rcs = examples_serialized_once ser h0 rcs.
-Proof.
-  induction rcs as [|rc rcs IH]; intros idx H; [reflexivity|].
-  cbn [nothing_to_fill] in H. apply andb_true_iff in H. destruct H as [H1 H2].
-  unfold examples_serialized_once in *. cbn [values_from map]. f_equal; [|apply IH; exact H2].
-  unfold case_value. apply map_ext_in. intros ca Hin.
-  rewrite forallb_forall in H1. specialize (H1 ca Hin).
-  apply andb_true_iff in H1. destruct H1 as [Hne Hd].
-  destruct (draw idx (fst ca) (hget h0 (snd ca))) as [[|]|]; try discriminate Hd.
-  cbn [strip]. unfold merged. destruct (hget h0 (snd ca)); [discriminate Hne | reflexivity].
-Qed.
-
-Lemma example_serialized_once_partial draw ser h0 rcs :
-  wf_refs h0 rcs = true -> nothing_to_fill draw h0 0 rcs = true ->
-  wires CopyWhenDrawn draw ser h0 rcs = examples_serialized_once ser h0 rcs.
-Proof.
-  intros Hwf Hn.
-  destruct (cases_independent draw ser h0 rcs Hwf (nothing_to_fill_all_drawn draw h0 rcs 0 Hn)) as [W _].
-  rewrite W. apply values_nothing_to_fill. exact Hn.
-Qed.
-
-(* ------------------------------------------------------------------ *)
-(* witnesses                                                           *)
-(* ------------------------------------------------------------------ *)
-Definition s_path_parameters : str := [112;97;116;104;95;112;97;114;97;109;101;116;101;114;115]%N.
-Definition s_id : str := [105;100]%N.
-Definition s_json_mt : str := [97;112;112;108;105;99;97;116;105;111;110;47;106;115;111;110]%N.
-(* one path parameter with one example (the string 5), three body examples *)
-Definition exs_shared : list example :=
-  [PEx s_path_parameters s_id (JStr [53%N]);
-   BEx (JInt 1) s_json_mt; BEx (JInt 2) s_json_mt; BEx (JInt 3) s_json_mt].
-Definition draw_nothing : draw_fn := fun _ _ _ => Some [].
-
-(* the one parameter combination is handed out three times: one object *)
-Lemma exs_shared_refs :
-  ref_combinations exs_shared =
-  ([[(s_id, JStr [53%N])]], [[(s_path_parameters, 0)]; [(s_path_parameters, 0)]; [(s_path_parameters, 0)]]).
-Proof. vm_compute. reflexivity. Qed.
-
-(* SENTINEL (seed C17_c): with the share rule the three cases hold ONE dict that
-   was serialized three times; no case carries the example serialized once *)
-Lemma shared_container_refuted :
-  exists exs ser draw,
-    let hr := ref_combinations exs in
-    wf_refs (fst hr) (snd hr) = true /\ nothing_to_fill draw (fst hr) 0 (snd hr) = true /\
-    wires ShareWhenNothingNew draw ser (fst hr) (snd hr) <> examples_serialized_once ser (fst hr) (snd hr) /\
-    wires CopyWhenDrawn draw ser (fst hr) (snd hr) = examples_serialized_once ser (fst hr) (snd hr) /\
-    ~ NoDup (case_addrs (snd (assemble ShareWhenNothingNew draw ser (fst hr) (snd hr)))).
-Proof.
-  exists exs_shared, ser_matrix, draw_nothing. cbv zeta.
-  repeat split; try (vm_compute; reflexivity).
-  - vm_compute. intros H. discriminate H.
-  - vm_compute. intros H. inversion H as [|x l Hin ND]. apply Hin. left. reflexivity.
-Qed.
-
-(* FINDING F7 (the code itself): the fill-in strategy already applies the
-   style serializer, serialize_components applies it again to the merged
-   container: the generated parameter goes out serialized twice *)
-Definition s_a : str := [97]%N.
-Definition s_b : str := [98]%N.
-Definition raw_fill_b : draw_fn := fun _ _ _ => Some [(s_b, JStr [51%N])].
-Definition post_id : ser_fn := fun _ d => d.
-Lemma fill_in_serialized_once_refuted :
-  exists ser post raw h0 rcs,
-    wf_refs h0 rcs = true /\ all_drawn (draw_of_strategy ser post raw) h0 0 rcs = true /\
-    wires CopyWhenDrawn (draw_of_strategy ser post raw) ser h0 rcs <> values_from raw ser h0 0 rcs.
-Proof.
-  exists ser_matrix, post_id, raw_fill_b, [[(s_a, JStr [53%N])]], [[(s_path_parameters, 0)]].
-  repeat split; try (vm_compute; reflexivity).
-  vm_compute. intros H. discriminate H.
-Qed.
-
-(* what goes out for the witness: a = ;a=5 (once), b = ;b=;b=3 (twice) *)
-Lemma fill_in_witness_value :
-  wires CopyWhenDrawn (draw_of_strategy ser_matrix post_id raw_fill_b) ser_matrix [[(s_a, JStr [53%N])]] [[(s_path_parameters, 0)]]
-  = [[(s_path_parameters, Some [(s_a, JStr [59;97;61;53]%N); (s_b, JStr [59;98;61;59;98;61;51]%N)])]].
-Proof. vm_compute. reflexivity. Qed.
-
-(* non-vacuity of the hypotheses of cases_independent / example_serialized_once_partial:
-   two parameter combinations cycled over three bodies, a non-trivial draw *)
-Definition exs_two : list example :=
-  [PEx s_path_parameters s_id (JStr [53%N]); PEx s_path_parameters s_id (JStr [54%N]);
-   BEx (JInt 1) s_json_mt; BEx (JInt 2) s_json_mt; BEx (JInt 3) s_json_mt].
-Lemma assembly_hypotheses_satisfiable :
-  let hr := ref_combinations exs_two in
-  length (snd hr) = 3 /\ wf_refs (fst hr) (snd hr) = true /\
-  all_drawn raw_fill_b (fst hr) 0 (snd hr) = true /\
-  nothing_to_fill draw_nothing (fst hr) 0 (snd hr) = true /\
-  wires CopyWhenDrawn draw_nothing ser_matrix (fst hr) (snd hr) =
-    [[(s_path_parameters, Some [(s_id, JStr [59;105;100;61;53]%N)])];
-     [(s_path_parameters, Some [(s_id, JStr [59;105;100;61;54]%N)])];
-     [(s_path_parameters, Some [(s_id, JStr [59;105;100;61;53]%N)])]].
-Proof. cbv zeta. repeat split; vm_compute; reflexivity. Qed.
 
 (* ------------------------------------------------------------------ *)
 (* the identity-level produce_combinations denotes the value-level one *)
@@ -459,16 +237,434 @@ Lemma ref_combinations_sound exs : containers_ok exs = true ->
   wf_refs (fst (ref_combinations exs)) (snd (ref_combinations exs)) = true.
 Proof. intros H. apply ref_grouped_sound. apply good_keys_group. exact H. Qed.
 
-(* the end-to-end statement on example lists: when nothing has to be filled
-   in, every produced case holds, for every container, exactly the example
-   container of its combination serialized once *)
-Lemma examples_once_end_to_end exs draw ser : containers_ok exs = true ->
-  nothing_to_fill draw (fst (ref_combinations exs)) 0 (snd (ref_combinations exs)) = true ->
-  wires CopyWhenDrawn draw ser (fst (ref_combinations exs)) (snd (ref_combinations exs)) =
-  map (fun c => map (fun cd => (fst cd, Some (ser (fst cd) (snd cd)))) (containers c)) (produce_combinations exs).
+(* ------------------------------------------------------------------ *)
+(* serialize_components under the rule of the code (since cedd1977)    *)
+(* ------------------------------------------------------------------ *)
+Definition addrs_of (cr : case_refs) : list nat :=
+  flat_map (fun co : str * option nat => match snd co with Some a => [a] | None => [] end) cr.
+
+Lemma case_addrs_cons cr crs : case_addrs (cr :: crs) = addrs_of cr ++ case_addrs crs.
+Proof. reflexivity. Qed.
+
+Lemma wire_ext F Z : forall cr,
+  (forall a, In a (addrs_of cr) -> a < length F) -> wire (F ++ Z) cr = wire F cr.
+Proof.
+  induction cr as [|[c o] cr IH]; intros H; [reflexivity|].
+  unfold wire in *. cbn [map fst snd]. f_equal.
+  - destruct o as [a|]; [|reflexivity]. rewrite hget_app_l; [reflexivity|].
+    apply H. cbn. left. reflexivity.
+  - apply IH. intros a Ha. apply H. unfold addrs_of. cbn [flat_map]. apply in_or_app. right. exact Ha.
+Qed.
+
+Lemma gen_case_spec draw h0 idx rc ext :
+  forallb (fun ca => Nat.ltb (snd ca) (length h0)) rc = true ->
+  forallb (fun ca => is_some (draw idx (fst ca) (hget h0 (snd ca)))) rc = true ->
+  gen_case CopyWhenDrawn draw idx (h0 ++ ext) rc =
+  ((h0 ++ ext) ++ map (mval draw h0 idx) rc, fresh_refs (length (h0 ++ ext)) rc).
+Proof.
+  intros Hwf Hdr. unfold gen_case. exact (gen_phase draw h0 idx rc ext [] Hwf Hdr).
+Qed.
+
+Definition spec_entry (smap : str -> bool) (ser : ser_fn) (h0 : heap) (D : str * nat -> dict) (ca : str * nat)
+  : str * option dict :=
+  (fst ca, Some (sval smap ser (fst ca) (hget h0 (snd ca)) (D ca))).
+
+Lemma ser_phase_spec smap ser h0 (D : str * nat -> dict) : forall rc P0 Q,
+  forallb (fun ca => Nat.ltb (snd ca) (length h0)) rc = true ->
+  exists X cr,
+    ser_phase SerExplicitOnly smap ser ((h0 ++ P0) ++ map D rc ++ Q)
+              (List.combine rc (fresh_refs (length (h0 ++ P0)) rc))
+      = (((h0 ++ P0) ++ map D rc ++ Q) ++ X, cr) /\
+    wire (((h0 ++ P0) ++ map D rc ++ Q) ++ X) cr = map (spec_entry smap ser h0 D) rc /\
+    (forall a, In a (addrs_of cr) ->
+       (length (h0 ++ P0) <= a < length (h0 ++ P0) + length rc) \/
+       (length ((h0 ++ P0) ++ map D rc ++ Q) <= a < length (((h0 ++ P0) ++ map D rc ++ Q) ++ X))) /\
+    NoDup (addrs_of cr).
+Proof.
+  induction rc as [|[c a] rc IH]; intros P0 Q Hwf.
+  - exists [], []. cbn. rewrite app_nil_r. repeat split; [intros a [] | constructor].
+  - cbn [forallb fst snd] in Hwf. apply andb_true_iff in Hwf. destruct Hwf as [Ha Hwf]. apply Nat.ltb_lt in Ha.
+    set (n := length (h0 ++ P0)).
+    set (h := (h0 ++ P0) ++ map D ((c, a) :: rc) ++ Q).
+    assert (Hn : hget h n = D (c, a)).
+    { unfold h, n. cbn [map app]. apply hget_middle. }
+    assert (Hsrc : hget h a = hget h0 a).
+    { unfold h. rewrite <- app_assoc. apply hget_app_l. exact Ha. }
+    assert (Hlen : n + S (length rc) <= length h).
+    { unfold h, n. rewrite !app_length. cbn [map length]. rewrite map_length. lia. }
+    (* the heap seen by the tail, written in the form the induction hypothesis wants *)
+    assert (Hh : forall Q1, h ++ Q1 = (h0 ++ (P0 ++ [D (c, a)])) ++ map D rc ++ (Q ++ Q1)).
+    { intros Q1. unfold h. cbn [map]. rewrite <- !app_assoc. cbn [app]. reflexivity. }
+    assert (Hn1 : length (h0 ++ (P0 ++ [D (c, a)])) = S n).
+    { unfold n. rewrite app_assoc, length_snoc. reflexivity. }
+    unfold fresh_refs. cbn [map length seq List.combine fst].
+    change (List.combine (map fst rc) (map Some (seq (S n) (length rc)))) with (fresh_refs (S n) rc).
+    cbn [ser_phase]. fold h.
+    assert (S1 : ser_one SerExplicitOnly smap ser h (c, a, (c, Some n)) =
+                 if smap c then
+                   if is_nil (D (c, a)) then (h, (c, Some n))
+                   else (h ++ [ser_new ser c (hget h0 a) (D (c, a))], (c, Some (length h)))
+                 else (h, (c, Some n))).
+    { unfold ser_one. cbn [fst snd]. rewrite Hn, Hsrc. reflexivity. }
+    rewrite S1. clear S1.
+    destruct (smap c) eqn:Es; [destruct (is_nil (D (c, a))) eqn:En|].
+    + (* a serializer, but the container is empty: continue *)
+      cbn [fst snd].
+      destruct (IH (P0 ++ [D (c, a)]) Q Hwf) as (X & cr & E & W & R & ND).
+      rewrite Hn1 in E, R. rewrite <- (app_nil_r Q) in E, W, R. rewrite <- Hh in E, W, R. rewrite app_nil_r in E, W, R.
+      exists X, ((c, Some n) :: cr). rewrite E. cbn [fst snd]. split; [reflexivity|]. split; [|split].
+      * unfold wire in *. cbn [map fst snd]. rewrite W. f_equal. unfold spec_entry. cbn [fst snd].
+        rewrite hget_app_l by lia. rewrite Hn. unfold sval. rewrite Es. rewrite En. reflexivity.
+      * intros x Hx. cbn in Hx. destruct Hx as [<-|Hx]; [left; cbn [length]; lia|].
+        apply R in Hx. cbn [length]. destruct Hx as [Hx|Hx]; [left; lia | right; exact Hx].
+      * cbn. constructor; [|exact ND]. intros Hin. apply R in Hin. destruct Hin as [Hin|Hin]; lia.
+    + (* a serializer and a non-empty container: a new dict *)
+      cbn [fst snd].
+      set (new := ser_new ser c (hget h0 a) (D (c, a))).
+      destruct (IH (P0 ++ [D (c, a)]) (Q ++ [new]) Hwf) as (X & cr & E & W & R & ND).
+      rewrite Hn1 in E, R. rewrite <- Hh in E, W, R.
+      exists ([new] ++ X), ((c, Some (length h)) :: cr). rewrite app_assoc. rewrite E. cbn [fst snd].
+      split; [reflexivity|]. split; [|split].
+      * unfold wire in *. cbn [map fst snd]. rewrite W. f_equal. unfold spec_entry. cbn [fst snd].
+        rewrite <- app_assoc. cbn [app]. rewrite hget_middle.
+        unfold sval. rewrite Es. rewrite En. reflexivity.
+      * intros x Hx. cbn in Hx. rewrite !app_length in *. cbn [length] in *.
+        destruct Hx as [<-|Hx]; [right; lia|].
+        apply R in Hx. rewrite ?app_length in Hx. cbn [length] in Hx.
+        destruct Hx as [Hx|Hx]; [left; lia | right; lia].
+      * cbn. constructor; [|exact ND]. intros Hin. apply R in Hin. rewrite ?app_length in Hin. cbn [length] in Hin.
+        destruct Hin as [Hin|Hin]; lia.
+    + (* no serializer for this container: untouched *)
+      cbn [fst snd].
+      destruct (IH (P0 ++ [D (c, a)]) Q Hwf) as (X & cr & E & W & R & ND).
+      rewrite Hn1 in E, R. rewrite <- (app_nil_r Q) in E, W, R. rewrite <- Hh in E, W, R. rewrite app_nil_r in E, W, R.
+      exists X, ((c, Some n) :: cr). rewrite E. cbn [fst snd]. split; [reflexivity|]. split; [|split].
+      * unfold wire in *. cbn [map fst snd]. rewrite W. f_equal. unfold spec_entry. cbn [fst snd].
+        rewrite hget_app_l by lia. rewrite Hn. unfold sval. rewrite Es. reflexivity.
+      * intros x Hx. cbn in Hx. destruct Hx as [<-|Hx]; [left; cbn [length]; lia|].
+        apply R in Hx. cbn [length]. destruct Hx as [Hx|Hx]; [left; lia | right; exact Hx].
+      * cbn. constructor; [|exact ND]. intros Hin. apply R in Hin. destruct Hin as [Hin|Hin]; lia.
+Qed.
+
+(* one case: generation, then serialization *)
+Lemma build_case_spec draw smap ser h0 idx rc ext :
+  forallb (fun ca => Nat.ltb (snd ca) (length h0)) rc = true ->
+  forallb (fun ca => is_some (draw idx (fst ca) (hget h0 (snd ca)))) rc = true ->
+  exists Y cr,
+    build_case CopyWhenDrawn SerExplicitOnly draw smap ser idx (h0 ++ ext) rc = ((h0 ++ ext) ++ Y, cr) /\
+    wire ((h0 ++ ext) ++ Y) cr = case_value draw smap ser h0 idx rc /\
+    (forall a, In a (addrs_of cr) -> length (h0 ++ ext) <= a < length ((h0 ++ ext) ++ Y)) /\
+    NoDup (addrs_of cr).
+Proof.
+  intros Hwf Hdr. unfold build_case. cbv zeta. rewrite (gen_case_spec draw h0 idx rc ext Hwf Hdr). cbn [fst snd].
+  destruct (ser_phase_spec smap ser h0 (mval draw h0 idx) rc ext [] Hwf) as (X & cr & E & W & R & ND).
+  rewrite app_nil_r in E, W, R.
+  exists (map (mval draw h0 idx) rc ++ X), cr. rewrite app_assoc. rewrite E. split; [reflexivity|].
+  split; [|split].
+  - rewrite W. unfold case_value. apply map_ext. intros ca. reflexivity.
+  - intros a Ha. apply R in Ha. rewrite !app_length in *. rewrite map_length in *. destruct Ha as [Ha|Ha]; lia.
+  - exact ND.
+Qed.
+
+(* ------------------------------------------------------------------ *)
+(* the whole sequence of cases                                         *)
+(* ------------------------------------------------------------------ *)
+Lemma NoDup_app_lt (l1 l2 : list nat) m :
+  NoDup l1 -> NoDup l2 -> (forall a, In a l1 -> a < m) -> (forall a, In a l2 -> m <= a) -> NoDup (l1 ++ l2).
+Proof.
+  induction l1 as [|x l1 IH]; intros N1 N2 H1 H2; [exact N2|].
+  cbn [app]. inversion N1 as [|y l Hx N1']; subst. constructor.
+  - intros Hin. apply in_app_or in Hin. destruct Hin as [Hin|Hin]; [exact (Hx Hin)|].
+    specialize (H1 x (or_introl eq_refl)). specialize (H2 x Hin). lia.
+  - apply IH; [exact N1' | exact N2 | intros a Ha; apply H1; right; exact Ha | exact H2].
+Qed.
+
+Lemma assemble_spec draw smap ser h0 : forall rcs idx ext,
+  wf_refs h0 rcs = true -> all_drawn draw h0 idx rcs = true ->
+  exists Y crs,
+    assemble_from CopyWhenDrawn SerExplicitOnly draw smap ser idx (h0 ++ ext) rcs = ((h0 ++ ext) ++ Y, crs) /\
+    map (wire ((h0 ++ ext) ++ Y)) crs = values_from draw smap ser h0 idx rcs /\
+    (forall a, In a (case_addrs crs) -> length (h0 ++ ext) <= a < length ((h0 ++ ext) ++ Y)) /\
+    NoDup (case_addrs crs).
+Proof.
+  induction rcs as [|rc rcs IH]; intros idx ext Hwf Hdr.
+  - exists [], []. cbn. rewrite app_nil_r. split; [reflexivity|]. split; [reflexivity|]. split; [intros a [] | constructor].
+  - cbn [wf_refs forallb] in Hwf. apply andb_true_iff in Hwf. destruct Hwf as [Hw1 Hwf].
+    cbn [all_drawn] in Hdr. apply andb_true_iff in Hdr. destruct Hdr as [Hd1 Hdr].
+    destruct (build_case_spec draw smap ser h0 idx rc ext Hw1 Hd1) as (Y1 & cr & E1 & W1 & R1 & N1).
+    cbn [assemble_from]. rewrite E1. cbn [fst snd]. rewrite <- app_assoc.
+    destruct (IH (S idx) (ext ++ Y1) Hwf Hdr) as (Y2 & crs & E2 & W2 & R2 & N2).
+    rewrite E2. cbn [fst snd].
+    exists (Y1 ++ Y2), (cr :: crs).
+    assert (EH : (h0 ++ ext ++ Y1) ++ Y2 = (h0 ++ ext) ++ Y1 ++ Y2) by (rewrite <- !app_assoc; reflexivity).
+    assert (EH1 : h0 ++ ext ++ Y1 = (h0 ++ ext) ++ Y1) by (rewrite <- !app_assoc; reflexivity).
+    split; [rewrite EH; reflexivity|]. split; [|split].
+    + cbn [map values_from]. f_equal.
+      * rewrite app_assoc. rewrite wire_ext; [exact W1|]. intros a Ha. apply R1 in Ha. lia.
+      * rewrite <- EH. exact W2.
+    + intros a Ha. rewrite case_addrs_cons in Ha. apply in_app_or in Ha. rewrite <- EH. rewrite EH1 in R2.
+      rewrite !app_length in *. destruct Ha as [Ha|Ha].
+      * apply R1 in Ha. rewrite ?app_length in Ha. lia.
+      * apply R2 in Ha. rewrite ?app_length in Ha. lia.
+    + rewrite case_addrs_cons. apply (NoDup_app_lt _ _ (length ((h0 ++ ext) ++ Y1))); [exact N1 | exact N2 | |].
+      * intros a Ha. apply R1 in Ha. lia.
+      * intros a Ha. apply R2 in Ha. rewrite EH1 in Ha. lia.
+Qed.
+
+(* The stateful assembly (heap, one case after the other, the serializer building a
+   new dict from the explicit keys) equals the pure per-case value; the source objects
+   keep their contents; the containers of the cases are new, pairwise distinct objects. *)
+Lemma cases_independent draw smap ser h0 rcs :
+  wf_refs h0 rcs = true -> all_drawn draw h0 0 rcs = true ->
+  wires CopyWhenDrawn SerExplicitOnly draw smap ser h0 rcs = values_from draw smap ser h0 0 rcs /\
+  firstn (length h0) (fst (assemble CopyWhenDrawn SerExplicitOnly draw smap ser h0 rcs)) = h0 /\
+  NoDup (case_addrs (snd (assemble CopyWhenDrawn SerExplicitOnly draw smap ser h0 rcs))) /\
+  (forall a, In a (case_addrs (snd (assemble CopyWhenDrawn SerExplicitOnly draw smap ser h0 rcs))) -> length h0 <= a).
+Proof.
+  intros Hwf Hdr. unfold wires, assemble.
+  destruct (assemble_spec draw smap ser h0 rcs 0 [] Hwf Hdr) as (Y & crs & E & W & R & ND).
+  rewrite app_nil_r in E, W, R. rewrite E. cbn [fst snd]. repeat split.
+  - exact W.
+  - rewrite firstn_app, Nat.sub_diag, firstn_all. cbn [firstn]. apply app_nil_r.
+  - exact ND.
+  - intros a Ha. apply R in Ha. lia.
+Qed.
+
+(* ------------------------------------------------------------------ *)
+(* every value is serialized exactly once (was: region nothing_to_fill, *)
+(* finding F7 outside it; full since fix cedd1977)                      *)
+(* ------------------------------------------------------------------ *)
+Lemma nodup_strs_NoDup l : nodup_strs l = true -> NoDup l.
+Proof.
+  induction l as [|k l IH]; intros H; [constructor|].
+  cbn [nodup_strs] in H. apply andb_true_iff in H. destruct H as [H1 H2]. constructor; [|apply IH; exact H2].
+  intros Hin. apply in_strs_In in Hin. unfold in_strs in Hin. rewrite Hin in H1. discriminate H1.
+Qed.
+
+Lemma filter_all {A} (f : A -> bool) l : (forall x, In x l -> f x = true) -> filter f l = l.
+Proof.
+  induction l as [|x l IH]; intros H; [reflexivity|]. cbn [filter]. rewrite (H x (or_introl eq_refl)).
+  f_equal. apply IH. intros y Hy. apply H. right. exact Hy.
+Qed.
+Lemma filter_none {A} (f : A -> bool) l : (forall x, In x l -> f x = false) -> filter f l = [].
+Proof.
+  induction l as [|x l IH]; intros H; [reflexivity|]. cbn [filter]. rewrite (H x (or_introl eq_refl)).
+  apply IH. intros y Hy. apply H. right. exact Hy.
+Qed.
+
+Lemma sval_disjoint smap ser c (v new : dict) :
+  draw_ok v (Some new) = true ->
+  sval smap ser c v (merged v new) = assoc_update (ser1 smap ser c v) new.
+Proof.
+  unfold draw_ok. intros H. apply andb_true_iff in H. destruct H as [H Hdis].
+  apply andb_true_iff in H. destruct H as [Hne Hnd]. apply nodup_strs_NoDup in Hnd.
+  rewrite forallb_forall in Hdis.
+  assert (Dis : forall k, In k (keys new) -> ~ In k (keys v)).
+  { intros k Hk Hv. apply Hdis in Hk. apply assoc_mem_In in Hv. rewrite Hv in Hk. discriminate Hk. }
+  assert (M : merged v new = v ++ new).
+  { unfold merged. destruct v as [|x v]; [discriminate Hne|]. apply assoc_update_disjoint; assumption. }
+  unfold sval, ser1. rewrite M. destruct (smap c); cbn [andb].
+  - assert (NE : is_nil (v ++ new) = false) by (destruct v; [discriminate Hne | reflexivity]).
+    rewrite NE. cbn [negb]. unfold ser_new, own, generated. rewrite !filter_app.
+    rewrite (filter_all _ v), (filter_none _ new), (filter_none _ v), (filter_all _ new).
+    + rewrite app_nil_r. reflexivity.
+    + intros [k x] Hin. cbn [fst]. apply negb_true_iff. destruct (assoc_mem k v) eqn:E; [|reflexivity].
+      apply assoc_mem_In in E. exfalso. apply (Dis k); [|exact E]. unfold keys. apply in_map_iff. exists (k, x). split; [reflexivity | exact Hin].
+    + intros [k x] Hin. cbn [fst]. apply negb_false_iff. apply assoc_mem_In. unfold keys. apply in_map_iff. exists (k, x). split; [reflexivity | exact Hin].
+    + intros [k x] Hin. cbn [fst]. destruct (assoc_mem k v) eqn:E; [|reflexivity].
+      apply assoc_mem_In in E. exfalso. apply (Dis k); [|exact E]. unfold keys. apply in_map_iff. exists (k, x). split; [reflexivity | exact Hin].
+    + intros [k x] Hin. cbn [fst]. apply assoc_mem_In. unfold keys. apply in_map_iff. exists (k, x). split; [reflexivity | exact Hin].
+  - symmetry. destruct v as [|x v]; [discriminate Hne|]. apply assoc_update_disjoint; assumption.
+Qed.
+
+Lemma fill_ok_all_drawn draw h0 : forall rcs idx,
+  fill_ok draw h0 idx rcs = true -> all_drawn draw h0 idx rcs = true.
+Proof.
+  induction rcs as [|rc rcs IH]; intros idx H; [reflexivity|].
+  cbn [fill_ok all_drawn] in *. apply andb_true_iff in H. destruct H as [H1 H2].
+  apply andb_true_iff. split; [|apply IH; exact H2].
+  rewrite forallb_forall in *. intros ca Hin. specialize (H1 ca Hin).
+  destruct (draw idx (fst ca) (hget h0 (snd ca))); [reflexivity | discriminate H1].
+Qed.
+
+Lemma nothing_to_fill_fill_ok draw h0 : forall rcs idx,
+  nothing_to_fill draw h0 idx rcs = true -> fill_ok draw h0 idx rcs = true.
+Proof.
+  induction rcs as [|rc rcs IH]; intros idx H; [reflexivity|].
+  cbn [nothing_to_fill fill_ok] in *. apply andb_true_iff in H. destruct H as [H1 H2].
+  apply andb_true_iff. split; [|apply IH; exact H2].
+  rewrite forallb_forall in *. intros ca Hin. specialize (H1 ca Hin).
+  apply andb_true_iff in H1. destruct H1 as [Hne H1].
+  destruct (draw idx (fst ca) (hget h0 (snd ca))) as [[|]|]; try discriminate H1.
+  unfold draw_ok. rewrite Hne. reflexivity.
+Qed.
+
+Lemma values_fill_ok draw smap ser h0 : forall rcs idx,
+  fill_ok draw h0 idx rcs = true ->
+  values_from draw smap ser h0 idx rcs = once_from draw smap ser idx (map (deref h0) rcs).
+Proof.
+  induction rcs as [|rc rcs IH]; intros idx H; [reflexivity|].
+  cbn [fill_ok] in H. apply andb_true_iff in H. destruct H as [H1 H2].
+  cbn [values_from map once_from]. f_equal; [|apply IH; exact H2].
+  unfold case_value, once_case, deref. rewrite map_map. apply map_ext_in. intros ca Hin. cbn [fst snd].
+  rewrite forallb_forall in H1. specialize (H1 ca Hin).
+  destruct (draw idx (fst ca) (hget h0 (snd ca))) as [new|]; [|discriminate H1].
+  cbn [strip]. rewrite (sval_disjoint smap ser (fst ca) _ _ H1). reflexivity.
+Qed.
+
+(* FULL (was _partial on the region nothing_to_fill): every case carries, for every
+   container, the explicit example container serialized exactly once and the fill-in
+   exactly as its strategy delivered it *)
+Lemma serialized_once draw smap ser h0 rcs :
+  wf_refs h0 rcs = true -> fill_ok draw h0 0 rcs = true ->
+  wires CopyWhenDrawn SerExplicitOnly draw smap ser h0 rcs = once_from draw smap ser 0 (map (deref h0) rcs).
+Proof.
+  intros Hwf Hn.
+  destruct (cases_independent draw smap ser h0 rcs Hwf (fill_ok_all_drawn draw h0 rcs 0 Hn)) as [W _].
+  rewrite W. apply values_fill_ok. exact Hn.
+Qed.
+
+(* the fill-in strategy of get_parameters_strategy maps the raw drawn object through the
+   style serializer itself: explicit values and generated values each pass through
+   the serializer once (the statement finding F7 refuted before the fix) *)
+Lemma fill_in_serialized_once ser post raw smap h0 rcs :
+  wf_refs h0 rcs = true -> fill_ok (draw_of_strategy ser post raw) h0 0 rcs = true ->
+  wires CopyWhenDrawn SerExplicitOnly (draw_of_strategy ser post raw) smap ser h0 rcs =
+  once_from (fun idx c v => match raw idx c v with Some r => Some (post c (ser c r)) | None => None end)
+            smap ser 0 (map (deref h0) rcs).
+Proof. intros Hwf Hn. exact (serialized_once (draw_of_strategy ser post raw) smap ser h0 rcs Hwf Hn). Qed.
+
+(* the old statement as a corollary: nothing to fill in, a serializer everywhere *)
+Lemma once_nothing_to_fill draw ser h0 : forall rcs idx,
+  nothing_to_fill draw h0 idx rcs = true ->
+  once_from draw smap_all ser idx (map (deref h0) rcs) = examples_serialized_once ser h0 rcs.
+Proof.
+  induction rcs as [|rc rcs IH]; intros idx H; [reflexivity|].
+  cbn [nothing_to_fill] in H. apply andb_true_iff in H. destruct H as [H1 H2].
+  unfold examples_serialized_once in *. cbn [map once_from]. f_equal; [|apply IH; exact H2].
+  unfold once_case, deref. rewrite map_map. apply map_ext_in. intros ca Hin. cbn [fst snd].
+  rewrite forallb_forall in H1. specialize (H1 ca Hin). apply andb_true_iff in H1. destruct H1 as [_ H1].
+  destruct (draw idx (fst ca) (hget h0 (snd ca))) as [[|]|]; try discriminate H1. reflexivity.
+Qed.
+
+Lemma example_serialized_once_nothing_to_fill draw ser h0 rcs :
+  wf_refs h0 rcs = true -> nothing_to_fill draw h0 0 rcs = true ->
+  wires CopyWhenDrawn SerExplicitOnly draw smap_all ser h0 rcs = examples_serialized_once ser h0 rcs.
+Proof.
+  intros Hwf Hn. rewrite (serialized_once draw smap_all ser h0 rcs Hwf (nothing_to_fill_fill_ok draw h0 rcs 0 Hn)).
+  apply once_nothing_to_fill. exact Hn.
+Qed.
+
+(* ------------------------------------------------------------------ *)
+(* witnesses                                                           *)
+(* ------------------------------------------------------------------ *)
+Definition s_path_parameters : str := [112;97;116;104;95;112;97;114;97;109;101;116;101;114;115]%N.
+Definition s_id : str := [105;100]%N.
+Definition s_json_mt : str := [97;112;112;108;105;99;97;116;105;111;110;47;106;115;111;110]%N.
+(* one path parameter with one example (the string 5), three body examples *)
+Definition exs_shared : list example :=
+  [PEx s_path_parameters s_id (JStr [53%N]);
+   BEx (JInt 1) s_json_mt; BEx (JInt 2) s_json_mt; BEx (JInt 3) s_json_mt].
+Definition draw_nothing : draw_fn := fun _ _ _ => Some [].
+
+(* the one parameter combination is handed out three times: one object *)
+Lemma exs_shared_refs :
+  ref_combinations exs_shared =
+  ([[(s_id, JStr [53%N])]], [[(s_path_parameters, 0)]; [(s_path_parameters, 0)]; [(s_path_parameters, 0)]]).
+Proof. vm_compute. reflexivity. Qed.
+
+(* SENTINEL (seed C17_c): with the share rule get_parameters_value hands the ONE
+   object of the combination to all three cases.  Under the pre-fix serializer
+   (in place, whole container) the three cases hold one dict serialized three times;
+   the serializer of the code builds a new dict per case from the explicit keys, so
+   the sharing stops at the object get_parameters_value returns (still a difference
+   the correspondence observes: the generated object is a source object). *)
+Lemma shared_container_refuted :
+  exists exs ser draw,
+    let hr := ref_combinations exs in
+    wf_refs (fst hr) (snd hr) = true /\ nothing_to_fill draw (fst hr) 0 (snd hr) = true /\
+    (exists a, a < length (fst hr) /\
+       In a (case_addrs (gen_refs_from ShareWhenNothingNew SerExplicitOnly draw smap_all ser 0 (fst hr) (snd hr)))) /\
+    (forall a, In a (case_addrs (gen_refs_from CopyWhenDrawn SerExplicitOnly draw smap_all ser 0 (fst hr) (snd hr))) ->
+       length (fst hr) <= a) /\
+    wires ShareWhenNothingNew SerWholeContainer draw smap_all ser (fst hr) (snd hr) <> examples_serialized_once ser (fst hr) (snd hr) /\
+    wires CopyWhenDrawn SerWholeContainer draw smap_all ser (fst hr) (snd hr) = examples_serialized_once ser (fst hr) (snd hr) /\
+    ~ NoDup (case_addrs (snd (assemble ShareWhenNothingNew SerWholeContainer draw smap_all ser (fst hr) (snd hr)))) /\
+    wires ShareWhenNothingNew SerExplicitOnly draw smap_all ser (fst hr) (snd hr) = examples_serialized_once ser (fst hr) (snd hr) /\
+    wires CopyWhenDrawn SerExplicitOnly draw smap_all ser (fst hr) (snd hr) = examples_serialized_once ser (fst hr) (snd hr).
+Proof.
+  exists exs_shared, ser_matrix, draw_nothing. cbv zeta.
+  repeat split; try (vm_compute; reflexivity).
+  - exists 0. split; vm_compute; [lia | left; reflexivity].
+  - vm_compute. intros a H. repeat (destruct H as [<-|H]; [lia|]). destruct H.
+  - vm_compute. intros H. discriminate H.
+  - vm_compute. intros H. inversion H as [|x l Hin ND]. apply Hin. left. reflexivity.
+Qed.
+
+(* SENTINEL (finding F7, fixed by cedd1977): the fill-in strategy already applies the
+   style serializer; the pre-fix serialize_components applied it again to the whole
+   merged container, so the generated parameter went out serialized twice.  The rule of
+   the code serializes every value once. *)
+Definition s_a : str := [97]%N.
+Definition s_b : str := [98]%N.
+Definition raw_fill_b : draw_fn := fun _ _ _ => Some [(s_b, JStr [51%N])].
+Definition post_id : ser_fn := fun _ d => d.
+Lemma whole_container_serializer_refuted :
+  exists ser post raw h0 rcs,
+    wf_refs h0 rcs = true /\ fill_ok (draw_of_strategy ser post raw) h0 0 rcs = true /\
+    wires CopyWhenDrawn SerWholeContainer (draw_of_strategy ser post raw) smap_all ser h0 rcs
+      <> once_from (draw_of_strategy ser post raw) smap_all ser 0 (map (deref h0) rcs) /\
+    wires CopyWhenDrawn SerExplicitOnly (draw_of_strategy ser post raw) smap_all ser h0 rcs
+      = once_from (draw_of_strategy ser post raw) smap_all ser 0 (map (deref h0) rcs).
+Proof.
+  exists ser_matrix, post_id, raw_fill_b, [[(s_a, JStr [53%N])]], [[(s_path_parameters, 0)]].
+  repeat split; try (vm_compute; reflexivity).
+  vm_compute. intros H. discriminate H.
+Qed.
+
+(* what goes out for the witness: the code a = ;a=5, b = ;b=3 (each once);
+   the pre-fix rule a = ;a=5 (once), b = ;b=;b=3 (twice) *)
+Lemma fill_in_witness_value :
+  wires CopyWhenDrawn SerExplicitOnly (draw_of_strategy ser_matrix post_id raw_fill_b) smap_all ser_matrix
+        [[(s_a, JStr [53%N])]] [[(s_path_parameters, 0)]]
+  = [[(s_path_parameters, Some [(s_a, JStr [59;97;61;53]%N); (s_b, JStr [59;98;61;51]%N)])]] /\
+  wires CopyWhenDrawn SerWholeContainer (draw_of_strategy ser_matrix post_id raw_fill_b) smap_all ser_matrix
+        [[(s_a, JStr [53%N])]] [[(s_path_parameters, 0)]]
+  = [[(s_path_parameters, Some [(s_a, JStr [59;97;61;53]%N); (s_b, JStr [59;98;61;59;98;61;51]%N)])]].
+Proof. split; vm_compute; reflexivity. Qed.
+
+(* non-vacuity of the hypotheses of cases_independent / serialized_once:
+   two parameter combinations cycled over three bodies, a non-trivial draw; a container
+   without serializer keeps the object get_parameters_value returned *)
+Definition exs_two : list example :=
+  [PEx s_path_parameters s_id (JStr [53%N]); PEx s_path_parameters s_id (JStr [54%N]);
+   BEx (JInt 1) s_json_mt; BEx (JInt 2) s_json_mt; BEx (JInt 3) s_json_mt].
+Lemma assembly_hypotheses_satisfiable :
+  let hr := ref_combinations exs_two in
+  length (snd hr) = 3 /\ wf_refs (fst hr) (snd hr) = true /\
+  all_drawn raw_fill_b (fst hr) 0 (snd hr) = true /\
+  fill_ok (draw_of_strategy ser_matrix post_id raw_fill_b) (fst hr) 0 (snd hr) = true /\
+  nothing_to_fill draw_nothing (fst hr) 0 (snd hr) = true /\
+  wires CopyWhenDrawn SerExplicitOnly draw_nothing smap_all ser_matrix (fst hr) (snd hr) =
+    [[(s_path_parameters, Some [(s_id, JStr [59;105;100;61;53]%N)])];
+     [(s_path_parameters, Some [(s_id, JStr [59;105;100;61;54]%N)])];
+     [(s_path_parameters, Some [(s_id, JStr [59;105;100;61;53]%N)])]] /\
+  wires CopyWhenDrawn SerExplicitOnly (draw_of_strategy ser_matrix post_id raw_fill_b) smap_all ser_matrix (fst hr) (snd hr) =
+    [[(s_path_parameters, Some [(s_id, JStr [59;105;100;61;53]%N); (s_b, JStr [59;98;61;51]%N)])];
+     [(s_path_parameters, Some [(s_id, JStr [59;105;100;61;54]%N); (s_b, JStr [59;98;61;51]%N)])];
+     [(s_path_parameters, Some [(s_id, JStr [59;105;100;61;53]%N); (s_b, JStr [59;98;61;51]%N)])]] /\
+  snd (assemble CopyWhenDrawn SerExplicitOnly draw_nothing (smap_of []) ser_matrix (fst hr) (snd hr)) =
+    gen_refs_from CopyWhenDrawn SerExplicitOnly draw_nothing (smap_of []) ser_matrix 0 (fst hr) (snd hr).
+Proof. cbv zeta. repeat split; vm_compute; reflexivity. Qed.
+
+(* the end-to-end statement on example lists: every produced case holds, for every
+   container, the example container of its combination serialized exactly once and the
+   fill-in as its strategy delivered it *)
+Lemma examples_once_end_to_end exs draw smap ser : containers_ok exs = true ->
+  fill_ok draw (fst (ref_combinations exs)) 0 (snd (ref_combinations exs)) = true ->
+  wires CopyWhenDrawn SerExplicitOnly draw smap ser (fst (ref_combinations exs)) (snd (ref_combinations exs)) =
+  once_from draw smap ser 0 (map containers (produce_combinations exs)).
 Proof.
   intros Hc Hn. destruct (ref_combinations_sound exs Hc) as [D W].
-  rewrite (example_serialized_once_partial draw ser _ _ W Hn).
-  unfold examples_serialized_once. rewrite <- (map_map containers), <- D, map_map.
-  apply map_ext. intros rc. unfold deref. rewrite map_map. reflexivity.
+  rewrite (serialized_once draw smap ser _ _ W Hn). rewrite D. reflexivity.
 Qed.
